@@ -308,27 +308,39 @@ def a64Adjust (adj : Nat) (mk : Int → Instr) : Option (List Instr) :=
   else if adj ≤ 0xFFFFFF then some [mk ((adj &&& 0xFFF : Nat)), mk ((adj &&& 0xFFF000 : Nat))]
   else none
 
-def a64Prolog (f : Frame) : Option (List Instr) :=
+/-- a save slot of the AArch64 prolog: (group, register view size, first id, second id or none, offset) -/
+abbrev PSlot := Nat × Nat × Nat × Option Nat × Nat
+
+/-- the pairs of both groups in emission order; the flag says `mov x29, sp` follows the store
+(`i == 0 && frame.has_preserved_fp()` inside the loop over each group) -/
+def a64Items (f : Frame) : List (PSlot × Bool) :=
   let pei := peiInit f
-  let sp := 31
-  let grp (g : Nat) (pairs : List Pair) : List Instr :=
-    (pairs.zipIdx.map fun ((r1, r2, off), i) =>
-      let st :=
-        if off = 0 ∧ pei.total ≠ 0 then Instr.stp g (a64ViewSize f g) r1 r2 sp (-(toI32 pei.total)) .pre
-        else Instr.stp g (a64ViewSize f g) r1 r2 sp (toI32 off) .fixed
-      if i = 0 ∧ f.hasFP then [st, Instr.mov 29 sp] else [st]).flatten
-  (a64Adjust f.stackAdj (Instr.sub sp)).map fun adj =>
-    (if f.hasIBP then [Instr.nop "bti #3"] else []) ++ grp 0 pei.gp ++ grp 1 pei.vec ++ adj
+  let tag (g : Nat) (pairs : List Pair) : List (PSlot × Bool) :=
+    pairs.zipIdx.map fun ((r1, r2, off), i) => ((g, a64ViewSize f g, r1, r2, off), decide (i = 0) && f.hasFP)
+  tag 0 pei.gp ++ tag 1 pei.vec
+
+/-- the pair at offset 0 carries the whole `sp` adjustment of the save area (pre-index) -/
+def a64St (total : Nat) (p : PSlot) : Instr :=
+  if p.2.2.2.2 = 0 ∧ total ≠ 0 then Instr.stp p.1 p.2.1 p.2.2.1 p.2.2.2.1 31 (-(toI32 total)) .pre
+  else Instr.stp p.1 p.2.1 p.2.2.1 p.2.2.2.1 31 (toI32 p.2.2.2.2) .fixed
+
+def a64Ld (total : Nat) (p : PSlot) : Instr :=
+  if p.2.2.2.2 = 0 ∧ total ≠ 0 then Instr.ldp p.1 p.2.1 p.2.2.1 p.2.2.2.1 31 (toI32 total) .post
+  else Instr.ldp p.1 p.2.1 p.2.2.1 p.2.2.2.1 31 (toI32 p.2.2.2.2) .fixed
+
+def a64Stores (f : Frame) : List Instr :=
+  (a64Items f).flatMap fun (p, mv) => a64St (peiInit f).total p :: (if mv then [Instr.mov 29 31] else [])
+
+def a64Loads (f : Frame) : List Instr :=
+  (a64Items f).reverse.map fun (p, _) => a64Ld (peiInit f).total p
+
+def a64Bti (f : Frame) : List Instr := if f.hasIBP then [Instr.nop "bti #3"] else []
+
+def a64Prolog (f : Frame) : Option (List Instr) :=
+  (a64Adjust f.stackAdj (Instr.sub 31)).map fun adj => a64Bti f ++ (a64Stores f ++ adj)
 
 def a64Epilog (f : Frame) : Option (List Instr) :=
-  let pei := peiInit f
-  let sp := 31
-  let grp (g : Nat) (pairs : List Pair) : List Instr :=
-    pairs.reverse.map fun (r1, r2, off) =>
-      if off = 0 ∧ pei.total ≠ 0 then Instr.ldp g (a64ViewSize f g) r1 r2 sp (toI32 pei.total) .post
-      else Instr.ldp g (a64ViewSize f g) r1 r2 sp (toI32 off) .fixed
-  (a64Adjust f.stackAdj (Instr.add sp)).map fun adj =>
-    adj ++ grp 1 pei.vec ++ grp 0 pei.gp ++ [Instr.retReg 30]
+  (a64Adjust f.stackAdj (Instr.add 31)).map fun adj => adj ++ (a64Loads f ++ [Instr.retReg 30])
 
 def prolog (f : Frame) : Option (List Instr) :=
   match f.arch with
